@@ -82,6 +82,14 @@ def run(tier, seed):
         ast, src = genprog.gen_expr_program(s, wide=(i % 3 == 2))      # every third program: 4-byte unsigned and 8-byte operands, constants beyond 32 bits
         items.append(('expr:%d' % s, src, [rng.choice(['-O1', '-O2', '-O3'])] + (['-fstrings-as-u8'] if i % 2 else []) + (['-funsafe-string-indexing'] if i % 7 == 0 else [])))
         asts.append(ast)
+    # constant table: every escaped character constant and a rotating sample of the plain ones, each as `res = ['c' + v0]`
+    plain = [c for c in range(0x20, 0x7f) if c not in (0x27, 0x5c)]
+    table = [8, 9, 10, 13, 0x27, 0x5c] + (plain[seed % 8::8] if quick else plain)
+    for c in table:
+        s = rng.randrange(1 << 30)
+        ast, src = genprog.gen_expr_program(s, expr={'k': 'bin', 'op': '+', 'l': {'k': 'chr', 'c': c}, 'r': {'k': 'var', 'name': 'v0'}})
+        items.append(('chr:%d' % c, src, ['-O1']))
+        asts.append(ast)
     import time, sys
     T0 = time.time()
     def lap(what):
